@@ -55,6 +55,7 @@ type VC struct {
 	callees       map[string]bool
 	intMode       bool
 	ringMode      bool
+	privateEntry  []string // storage references of by-value aggregate parameters
 	allocRefs     map[string]bool // terms used as the reference of an object allocated by this function
 	slice         sliceInfo
 	opaqueDef     map[string]opaqueDef
@@ -221,7 +222,11 @@ func (vc *VC) closedEntryHeap(cs []comp) {
 		vc.trusted["closed:"+c.name] = true
 		h0 := vc.heap0.m[c.name]
 		t := sel(sel(h0, "r!"), "o!")
-		vc.decls = append(vc.decls, fmt.Sprintf("(assert (forall ((r! Int) (o! (_ BitVec 64))) (! (and (<= 0 %s) (< %s %s)) :pattern (%s))))", t, t, vc.heap0.alloc, t))
+		body := []string{app("<=", "0", t), app("<", t, vc.heap0.alloc)}
+		for _, pr := range vc.privateEntry {
+			body = append(body, sNot(sEq(t, pr)))
+		}
+		vc.decls = append(vc.decls, fmt.Sprintf("(assert (forall ((r! Int) (o! (_ BitVec 64))) (! %s :pattern (%s))))", sAnd(body...), t))
 	}
 }
 
